@@ -589,7 +589,6 @@ func ruleR3(c *Ctx) {
 	ruleR3reset(c)
 }
 
-
 // parkedLoop: a loop that hands actions to parked tokens. The element channel is the range value of
 // a []chan IAction, a local assigned from an index into such a slice, or the index expression itself.
 type parkedLoop struct {
@@ -659,6 +658,13 @@ func parkedLoops(p *Prog) []parkedLoop {
 			has := false
 			inspectNoLit(body, func(z ast.Node) bool {
 				if isSend(z) {
+					// only the innermost loop around the send carries it
+					for cur := p.Parent(z); cur != nil && cur != ast.Node(loop); cur = p.Parent(cur) {
+						switch cur.(type) {
+						case *ast.ForStmt, *ast.RangeStmt:
+							return true
+						}
+					}
 					has = true
 					if slice == nil {
 						if ix, ok := unparen(z.(*ast.SendStmt).Chan).(*ast.IndexExpr); ok {
